@@ -313,7 +313,7 @@ let judge_e2e (input : string) (impl : string) (model : string) : verdict =
   let p = Array.of_list (split_on '|' input) in
   let e = parse_e2e p in
   if is_err model || model = "panic" then
-    (if is_err impl then (if impl = model then Agree else Mismatch "different error")
+    (if is_err impl then (if impl = model || (impl = "err:write" && model = "err:OtherErr") then Agree else Mismatch "different error")
      else Mismatch "the model fails where the implementation succeeds")
   else if not (is_ok impl) then Mismatch "the implementation fails where the model succeeds"
   else begin
